@@ -124,6 +124,21 @@ var properties = map[string]*Property{
 			"string methods: Index/Slice/Len are compared over an uninterpreted model of strings (same indexing function on both sides)",
 		},
 	},
+	"C28": {
+		ID:    "C28",
+		Title: "Type identity is a total equivalence consistent with type hashing and type maps",
+		Units: []Unit{
+			{Kind: "funcs", Pkg: "go/typeutil", Funcs: []string{"identical", "identicalVar", "Identical", "IdenticalIgnoreTags",
+				"(Hasher).Hash", "(Hasher).hashFor", "(Hasher).hashTuple", "(Hasher).hashVar", "hashNamed", "hashString",
+				"(*Map).At", "(*Map).Len", "(*Map).Delete", "(*Map).Set"}},
+		},
+		NotCovered: []string{
+			"reflexivity, symmetry and transitivity of Identical, and 'identical types have equal hashes': relational properties of two runs over recursive type structure; they need recursive specification functions mirroring both functions and induction, which the generator and the solvers do not provide. They are assumed where the map contracts need them and exercised only by the replay search",
+			"termination of identical and hashFor on cyclic type graphs (partial correctness only)",
+			"the well-formedness of types (no nil element, no typed nil component, embedded interfaces are named, function objects have a signature) is assumed in go/types/zz_verif_types.go, not checked against the constructors of go/types",
+			"that buckets of different hashes hold no identical keys (follows from hash consistency, not proved); Map.Iterate, Keys, Values, String (call unknown functions or format text)",
+		},
+	},
 	"C36": {
 		ID:    "C36",
 		Title: "Code completion returns exactly the matching in-scope names, sorted and unique",
